@@ -19,11 +19,19 @@ def has_loop(d):
     return any(it[0] == "loop" for it in le._items(d))
 
 
+# beyond fragment F: "bunched" shapes as in the corpus (a fork as the first item of an XOR branch) combined with loops
+# and breaks, so that one event has both a break edge and a fork that stays in the loop
+EXTRAS = ["A;loop{B;XOR(X;break|AND(C|D);E)};F", "A;loop{B;XOR(X;break|OR(C|D);E)};F", "A;loop{B;XOR(AND(C|D);E|G)};F",
+          "A;loop{B;XOR(X;Y;break|AND(C|D);E)};F", "A;loop{B;XOR(X;break|AND(C|D))};F", "A;loop{XOR(B|C);D};E",
+          "A;loop{AND(B|C);D};E", "A;loop{B;loop{C;XOR(X;break|AND(D|E);G)};H};I"]
+
+
 def case_list(tier, seed):
     if tier == "quick":
         named = le.corpus_defs() + le.f_defs(5) + le.sampled_defs(250, seed, 6, 14, 300)
     else:
         named = le.corpus_defs() + le.f_defs(6) + le.sampled_defs(1500, seed, 7, 18, 500)
+    named = named + [("X:" + t, le.parse_text(t)) for t in EXTRAS]
     seen, out = set(), []
     for n, d in named:
         if n not in seen and has_loop(d):
@@ -48,7 +56,7 @@ def obs_tla(o):
 
 def validate(obs, stats):
     idx = list(range(len(obs)))
-    nsh = max(1, min(10, (len(obs) + 299) // 300))
+    nsh = max(1, (len(obs) + 299) // 300)
     shards = [idx[i::nsh] for i in range(nsh)]
     runs = [dict(main="LoopNest", cfg="INIT Init\nNEXT Next\nINVARIANT Report\n",
                  data={"LoopData": tlc.data_module("LoopData", {"Obs": "<<\n " + ",\n ".join(obs_tla(obs[i]) for i in s) + "\n>>"},
@@ -114,7 +122,7 @@ def run(chk, tier, seed):
     nested = sum(1 for _, d in named if any(it[0] == "loop" and any(x[0] == "loop" for x in le._items(it[1])) for it in le._items(d)))
     cov = {"states": stats.get("states", 0), "transitions": stats.get("generated", 0),
            "traces_validated_against_impl": nobs, "evaluations": ncases, "distinct_nontrivial": nested,
-           "rule": "corpus + F (exhaustive up to the tier's bound) + seeded samples, restricted to definitions with a loop; job "
+           "rule": "corpus + F (exhaustive up to the tier's bound) + seeded samples, restricted to definitions with a loop, plus 8 hand-written 'bunched' loop shapes beyond F; job "
                    "sets Jobs_1 and Jobs_2 generated by TLC, two (thorough: three) presentations each; non-trivial = "
                    "definition with a loop nested in a loop",
            "definitions_with_loops": len(named), "exhaustive": False}
